@@ -396,6 +396,7 @@ CALLS = [
     "rec(rec(x, 2), z)", "rec(x, rec(z, 3), k=rec(x))", "np.log(rec(x) + 1)", "rec(np.log(x), np.exp(z))", "rec(x + z * 2, z / x)", "rec((x + z) * 2, k=(z - x) / 2)",
     "rec(x, 1, True)", "rec(x, 2.0, 2)", "rec(x, 0, k=False)", "rec(x, True, 1)", "rec(x, 1.0, 1, 1, True)", "rec(x, 'a', \"a\")", "rec(rec(x, 1), True)",
     "rec(x, 'a  b')", "rec(x, 'a\tb ')", "rec(x, ' a ', k=\"  \")", "rec(x, 'A   b', 'a b')",
+    "np.asarray(x)", "rec(np.asarray(x), 2)", "I(np.asarray(x) * z)",
     "rec(x, 2, 3, 4, 5)", "rec(x, 0.5, .5)", "rec(-x, +z)", "rec(x, k=z ** 2)", "rec(x, -2)", "rec(x, - 2)", "np.power(x, 2)", "I(np.maximum(x, z) - np.minimum(x, z))",
     "rec(x > 1, z <= 2)", "rec(x == 2.0)", "rec(x != z, x < z)", "rec(x, 'a b')", "rec(x, 'a,b)')", "rec( x ,k = 3 )", "rec(x,k=3)",
 ]
